@@ -184,7 +184,8 @@ def run(pid, tier, seed, replay, t0):
 
     stats = dict(evaluations=0, keys=set(), features={}, disagreements=[], failures=[], known_hits={}, samples=[])
 
-    def account(case, res, origin):
+    def account(case, res, origin, known_sig=None):
+        # (a listed finding is identified by its witness input: the same signature on any other input is a new violation)
         stats["evaluations"] += 1
         if res.nontrivial:
             stats["keys"].add(res.key or core.case_key(case))
@@ -195,7 +196,7 @@ def run(pid, tier, seed, replay, t0):
         for d in res.disagreements:
             stats["disagreements"].append((case, d, origin))
         for sig, msg in res.failures:
-            if sig in known_sigs:
+            if known_sig is not None and sig == known_sig:
                 stats["known_hits"][sig] = stats["known_hits"].get(sig, 0) + 1
             else:
                 stats["failures"].append((case, sig, msg, origin))
@@ -209,7 +210,7 @@ def run(pid, tier, seed, replay, t0):
             print(f"KNOWN-FINDING: property={pid} {k['what']} [signature {k['signature']}, witness {k['witness']}]")
         else:
             print(f"note: known finding {k['signature']} no longer reproduces on its witness")
-        account(case, res, "known:" + k["witness"])
+        account(case, res, "known:" + k["witness"], known_sig=k["signature"])
 
     # ---- 3. corpus then generated cases
     for name, case in corpus_cases(pid):
@@ -240,8 +241,7 @@ def run(pid, tier, seed, replay, t0):
             res = run_case(case)
             searched += 1
             for sig, msg in res.failures:
-                if sig not in known_sigs:
-                    stats["failures"].append((case, sig, msg, "search"))
+                stats["failures"].append((case, sig, msg, "search"))
             if stats["failures"] or time.time() - tsearch > (120 if tier == "quick" else 600):
                 break
 
